@@ -6,7 +6,7 @@
     Only ValidDefs' DATA (the records, the look-up of a variable's place [model_locs], the regenerated tables) is used;
     none of its validate_* functions. *)
 From Coq Require Import String Ascii List Bool Arith ZArith NArith QArith Relations.
-From LC Require Import Common NumDefs NumSpec MathDefs ValidDefs.
+From LC Require Import Common NumDefs NumPosDefs NumSpec MathDefs ValidDefs.
 From LC Require UnitsDefs.
 From LCGen Require Import UnitTables PrefixTable.
 Import ListNotations.
@@ -57,7 +57,13 @@ Section Math.
 
   (** the arity / sibling / token rule for ONE element in its context ([sub] = its content is fine) *)
   Definition NodeRule (pk : list xml) (idx : nat) (n : string) (attrs : list attr) (kids : list xml) : Prop :=
-    val_node arity_fix_committed pk idx n attrs kids [] = [].
+    dwrap diff_ci_fix_committed pk n (val_node arity_fix_committed pk idx n attrs kids []) = [].
+
+  (** the name a <ci> gives: its first text child, stripped (after 064d865: comments before it are skipped) *)
+  Definition ci_text (kids : list xml) : string :=
+    if ci_comment_fix_committed
+    then match first_non_comment (visible kids) with Some (Text s) => strip s | _ => "" end
+    else text_of (first_child kids).
 
   (** all elements of a tree (any depth) *)
   Fixpoint elements (x : xml) : list xml :=
@@ -72,7 +78,7 @@ Section Math.
     match x with
     | Elem _ _ attrs kids =>
         (is_mathml_el "ci" x = true ->
-           let t := text_of (first_child kids) in t = "" \/ In t vars) /\
+           let t := ci_text kids in t = "" \/ In t vars) /\
         (is_mathml_el "cn" x = true -> val_cn_units units attrs = [])
     | _ => True
     end.
